@@ -89,6 +89,14 @@ PROPS = {
         "aspects": ["outcome"],
         "assumptions": ["panic payloads are compared as text (quoted name)"],
     },
+    "C19": {
+        "statement": "C19_layout_invariant (relabelled / permuted / duplicated declarations give identical executed and printed tables, for every registration sequence), C19_names_irrelevant, C19_insert_invariant",
+        "engines": [{"engine": "invariance", "args": {}, "quick": {"cases": 150}, "thorough": {"cases": 6000, "process-every": 25}},
+                    {"engine": "invariance", "args": {"process-every": 0}, "quick": {"cases": 60}, "thorough": {"cases": 2000}, "nopar": True},
+                    plan("plan,batch", quick=150)],
+        "aspects": ["layout", "outcome", "debug"],
+        "assumptions": ["ahash's per-process random state is what varies between processes"],
+    },
     "C20": {
         "statement": "Scenario.C20_printed_is_executed + byte-for-byte Debug text",
         "engines": [plan("malformed,plan,batch")],
